@@ -244,6 +244,24 @@ func c06Gen(c *engine.C) engine.Case {
 	if throughCLI {
 		c.Tag("cli")
 	}
+	// how the lines are written: line ends and blanks behind the import statements
+	form := engine.PickTag(c, "line-form", "lf", "crlf", "blank-behind-imports", "crlf-and-blank-behind-imports", "tab-behind-imports")
+	for fi := range fs {
+		f := &fs[fi]
+		f.lines = append([]string{}, f.lines...)
+		for i, l := range f.lines {
+			if strings.HasPrefix(l, "import ") && strings.Contains(form, "blank-behind-imports") {
+				l += " "
+			}
+			if strings.HasPrefix(l, "import ") && form == "tab-behind-imports" {
+				l += "\t"
+			}
+			if strings.HasPrefix(form, "crlf") && i < len(f.lines)-1 {
+				l += "\r"
+			}
+			f.lines[i] = l
+		}
+	}
 	return func() engine.Result {
 		var specs []FileSpec
 		anyDrop := false
